@@ -9,7 +9,12 @@ VARIABLES i, bad
 
 Toks(stream, seq) == [k \in 1..Len(seq) |-> <<stream, seq[k]>>]
 
+\* kind "handover-": what the second host received is one gap-free, in-order run of the records (Stdio!Run)
+ConformsHandover(o) ==
+  /\ o.out.setup_ok /\ ~o.out.panic /\ o.out.alive
+  /\ o.out.b_records > 0 /\ o.out.b_runs = 1 /\ o.out.b_garbage = 0
 Conforms(o) ==
+  IF o.kind = "handover-" THEN ConformsHandover(o) ELSE
   /\ o.out.setup_ok /\ ~o.out.panic
   /\ \A s \in Streams :
        LET w == Toks(s, o.out.written[s])  d == Toks(s, o.out.delivered[s]) IN
